@@ -99,6 +99,9 @@ def regen_all():
         translate_tables.emit(REPO, os.path.join(tmp, "Tables.lean"))
         translate_lock.emit(REPO, os.path.join(tmp, "ClfLock.lean"))
         translate_exc.emit(REPO, tmp)
+        if released().get("monitor"):
+            import translate_mon
+            translate_mon.emit(REPO, os.path.join(tmp, "Monitor.lean"))
         mods = fn_spec_modules()
         specs = [sp for m in mods for sp in m.SPECS]
         translate_fn.emit(REPO, tmp, specs=specs, only=[m.GROUP for m in mods])
@@ -406,6 +409,10 @@ class Check:
             import excflow
             if excflow.BY_PROPERTY.get(self.pid):
                 ok = excflow.run(self) and ok
+        if rel.get("monitor"):
+            import monitor
+            if self.pid in monitor.BY_PROPERTY:
+                ok = monitor.run(self) and ok
         return ok
 
     def leanchecker(self, modules):
